@@ -100,6 +100,13 @@ S(id="D.diff.native", props=["C11"], spec="native/desc_diff_enum.c", mode="N", s
   bound="descriptions with one rule of 1..2 alternatives of <= 2 symbols over {'a', B, N} (thorough + C=7) and 7 translation forms; right-hand sides of 1..130 symbols; inputs of length <= 2 (thorough 3); with/without cost flag",
   functions=["yaep_parse_grammar", "yyparse (bison actions)", "set_sgrammar", "sread_terminal", "sread_rule"],
   what="yaep_parse_grammar on a description and yaep_read_grammar on the grammar the text denotes give the same definition result and the same parse results and trees (names, costs, codes)")
+S(id="P.cost.native", props=["C04"], spec="native/cost_enum.c", mode="N", link=["allocate.c", "hashtab.c", "objstack.c", "vlobject.c", "yaep.c"], harness="main", timeout=3000,
+  params={"quick": {"CMAX": 2}, "thorough": {"CMAX": 3}},
+  bound="five ambiguous description families (three alternatives for one token; an ambiguous symbol twice under a common node; two binary rules and a leaf rule over a^1..a^4; alternatives that "
+        "keep different children; ambiguity two levels down), abstract-node costs 0..2 (thorough 0..3) in every combination, lookahead 0..2, one / all parses",
+  functions=["yaep_parse", "make_parse", "find_minimal_translation", "prune_to_minimal", "traverse_pruned_translation"],
+  what="the oracle is the enumeration of the all-parses result without cost flag: with the flag the denoted set is exactly the minimal-cost translations (all parses) or one of them, without ALT "
+       "node (one parse); every cost field is own cost + the children's fields and the root carries the minimum; without the flag the fields are the rules' own costs")
 S(id="T.pair.native", props=["C13"], spec="native/pair_enum.c", mode="N", link=["allocate.c", "hashtab.c", "objstack.c", "vlobject.c", "yaep.c"], harness="main", timeout=3600,
   params={"quick": {"NSYM": 3, "INLEN": 2, "PAIR_ALTS": 1}, "thorough": {"NSYM": 3, "INLEN": 2, "PAIR_ALTS": 2}},
   bound="descriptions with one rule of 1 (thorough 2) alternatives of <= 2 symbols over {'a', B, N} and 7 translation forms, inputs of length <= 2; plus 216 ambiguous descriptions (2-3 alternatives for one token with abstract-node costs 1..3 in every order: flat, nested under S : P P, under a common node); one/all parses; with/without cost flag",
